@@ -872,6 +872,9 @@ func (e *Engine) evalSpecCall(x *SExpr, env *SpecEnv) Value {
 		return VTerm{T: mkApp(args[0].Val, SInt, ts...), Typ: intT}
 	case "rkind":
 		return VTerm{T: mkApp("reflect_kind", SInt, term(e.evalSpec(args[0], env))), Typ: intT}
+	case "rtype":
+		// rtype(v): what v.Type().String() returns
+		return VTerm{T: mkApp("reflect_typestr", SStr, mkApp("reflect_type", SRef, term(e.evalSpec(args[0], env)))), Typ: types.Typ[types.String]}
 	case "rval":
 		// rval(v, "Float"): the payload of the reflect.Value v as read by v.Float() / written by v.SetFloat(x)
 		if len(args) != 2 || args[1].Kind != "str" {
@@ -880,6 +883,8 @@ func (e *Engine) evalSpecCall(x *SExpr, env *SpecEnv) Value {
 		v := term(e.evalSpec(args[0], env))
 		so, ty := SInt, types.Type(intT)
 		switch args[1].Val {
+		case "Time":
+			so, ty = SInt, types.Type(intT)
 		case "Float":
 			so, ty = SReal, types.Typ[types.Float64]
 		case "String":
